@@ -179,8 +179,18 @@ func (e c04envs) pick(auth bool) *hs.Env {
 func (ch c04) Run(c *core.Ctx) {
 	core.AllocSanitizerOn()
 	tr.WatchdogTimeout = 30 * time.Second
-	envTLS := hs.Start(hs.Parse, wire.MessageBufferSize(c04L), wire.TLSConfig(hs.ServerTLS()))
-	envs := c04envs{plain: hs.Start(hs.Parse, wire.MessageBufferSize(c04L)), auth: hs.Start(hs.Parse, wire.MessageBufferSize(c04L), wire.SessionAuthStrategy(wire.ClearTextPassword(c04validator)))}
+	// the embedding program's hooks for the end of a connection look at their context (address, parameters,
+	// user), as hooks that write an audit line do
+	hook := func(ctx context.Context) error {
+		_ = wire.RemoteAddress(ctx)
+		_ = wire.ClientParameters(ctx)["user"]
+		_ = wire.AuthenticatedUsername(ctx)
+		_ = wire.TypeMap(ctx)
+		return nil
+	}
+	hooks := []wire.OptionFn{wire.CloseConn(hook), wire.TerminateConn(hook)}
+	envTLS := hs.Start(hs.Parse, append(hooks, wire.MessageBufferSize(c04L), wire.TLSConfig(hs.ServerTLS()))...)
+	envs := c04envs{plain: hs.Start(hs.Parse, append(hooks, wire.MessageBufferSize(c04L))...), auth: hs.Start(hs.Parse, append(hooks, wire.MessageBufferSize(c04L), wire.SessionAuthStrategy(wire.ClearTextPassword(c04validator)))...)}
 	nb := ch.Batches(c.Tier)
 	ncanon, nmut := 24, 2500
 	if c.Tier == "thorough" {
